@@ -8,6 +8,7 @@ package c19
 //	eth      MsgEthereumTx calling the log-emitter contract (k logs; optional revert;
 //	         optional failure: "nonce" = rejected by the ante handler, "gas" = gas
 //	         limit below intrinsic gas, fails in the msg server)
+//	eth2     one Cosmos tx carrying TWO MsgEthereumTx (nonces n, n+1) with k and k2 logs
 //	create   Cosmos tx MsgCreateFunToken{from bank denom} (deploys an ERC20)
 //	convert  Cosmos tx MsgConvertCoinToEvm for a coin-born FunToken (mints ERC20)
 //	s2b      MsgEthereumTx calling the FunToken precompile sendToBank for an ERC20-born FunToken
@@ -52,6 +53,7 @@ type c19Op struct {
 	Revert bool   `json:"revert"` // eth: REVERT after emitting
 	Fail   string `json:"fail"`   // eth: "" | nonce | gas
 	Sender int    `json:"sender"` // eth: which funded account
+	K2     int    `json:"k2"`     // eth2: logs of the second message
 }
 
 type c19OpObs struct {
@@ -246,6 +248,28 @@ func (w *c19World) runBlock(ops []c19Op) c19BlockObs {
 			if r.Code == 0 {
 				w.denoms = append(w.denoms, d)
 			}
+		case "eth2":
+			s := op.Sender % len(w.accs)
+			nonce := w.nonce(s)
+			var msgs []*evm.MsgEthereumTx
+			for j, k := range []int{op.K, op.K2} {
+				data := make([]byte, 64)
+				data[31] = byte(k)
+				if op.Revert && j == 1 {
+					data[63] = 1
+				}
+				to := w.emitter
+				gas := uint64(60_000 + 3000*k)
+				if op.Fail == "gas" && j == 1 {
+					gas = 20_000
+				}
+				m, err := c.SignEth(w.accs[s], &evm.EvmTxArgs{Nonce: nonce + uint64(j), GasLimit: gas, GasPrice: price, To: &to, Input: data})
+				if err != nil {
+					panic(err)
+				}
+				msgs = append(msgs, m)
+			}
+			r = c.DeliverEth(msgs...)
 		case "s2b":
 			caddr := sdk.AccAddress(w.cosmos.PubKey().Address())
 			input, err := embeds.SmartContract_FunToken.ABI.Pack("sendToBank", w.erc20, big.NewInt(int64(5+op.K)), caddr.String())
@@ -297,7 +321,16 @@ func genC19Case(r *Rng, canConvert bool) [][]c19Op {
 		n := r.Range(1, 7)
 		var ops []c19Op
 		for i := 0; i < n; i++ {
-			switch r.Pick(6, 2, 3, 2, 2) {
+			switch r.Pick(6, 2, 3, 2, 2, 2) {
+			case 5:
+				op := c19Op{Kind: "eth2", K: r.Intn(3), K2: r.Intn(3), Sender: r.Intn(3)}
+				switch r.Pick(5, 2, 1) {
+				case 1:
+					op.Revert = true
+				case 2:
+					op.Fail = "gas"
+				}
+				ops = append(ops, op)
 			case 3:
 				ops = append(ops, c19Op{Kind: "s2b", K: r.Intn(4)})
 			case 4:
@@ -354,6 +387,7 @@ func TestC19(t *testing.T) {
 	run([][]c19Op{{{Kind: "eth", K: 1}, {Kind: "create"}, {Kind: "convert"}, {Kind: "eth", K: 2}}})
 	run([][]c19Op{{{Kind: "eth", K: 2}, {Kind: "eth", K: 0}, {Kind: "convert"}, {Kind: "convert"}, {Kind: "eth", K: 1, Revert: true}, {Kind: "eth", K: 3}}})
 	run([][]c19Op{{{Kind: "s2b", K: 1}, {Kind: "eth", K: 1}, {Kind: "conv20"}, {Kind: "s2b", K: 2}, {Kind: "conv20"}, {Kind: "eth", K: 2}}})
+	run([][]c19Op{{{Kind: "eth2", K: 1, K2: 2}, {Kind: "convert"}, {Kind: "eth2", K: 2, K2: 1, Revert: true}, {Kind: "eth", K: 1}, {Kind: "eth2", K: 1, K2: 1, Fail: "gas"}, {Kind: "eth", K: 1}}})
 	rng := NewRng(cfg.Seed)
 	for i := 0; i < cfg.N; i++ {
 		run(genC19Case(rng.Fork(), true))
